@@ -216,6 +216,29 @@ def run_type(chk, label, ty, good, bad, obj=None):
     # decoding: exact value, exact consumption, with trailing bytes
     tail = b'\x07\x80'
     trailing = ty[0] == 'TrailingByteArray'
+    # the library's own PacketBuffer used as a FIFO: a value is written, the buffer rewound and the value read; then the same
+    # encoding is appended behind it and read from where it starts - a complete valid encoding decodes to the same value
+    # however the buffer that holds it was used before
+    if not trailing:
+        from minecraft.networking.packets import PacketBuffer
+        for v, e in encs[:10]:
+            chk.count('dec-fifo:' + label, e.hex()[:200], len(e) > 0)
+            try:
+                pb = PacketBuffer()
+                pb.send(e)
+                pb.reset_cursor()
+                r1 = obj.read(pb)
+                mark = len(pb.get_writable())
+                pb.send(e + tail)
+                pb.bytes.seek(mark)
+                r2 = obj.read(pb)
+                rest = pb.read()
+                what = None if (repr(r1) == repr(r2) and rest == tail) else 'first read %r, read of the appended copy %r, %d bytes left (2 expected)' % (repr(r1)[:80], repr(r2)[:80], len(rest))
+            except Exception as ex:
+                what = 'raised %s' % exn_name(ex)
+            if what:
+                chk.violation('dec', 'dec-fifo:%s:%s' % (label, e.hex()[:40]), {'case': {'type': label, 'bytes': e.hex()[:300]}, 'observed': what},
+                              '%s read twice from one PacketBuffer (written, rewound, read; appended again, read): %s' % (label, what))
     dreq = [('dec', [CC, sxt, e + (b'' if trailing else tail)]) for _v, e in encs]
     dm = run_model(dreq)
     for (v, e), m in zip(encs, dm):
